@@ -257,7 +257,9 @@ pub struct ZoneSpec {
     pub leaps: Vec<(i64, i32)>,
     pub rule: Option<RuleSpec>,
     pub rule_style: u8,
-    /// 0 = one string per distinct designation, 1 = share suffixes inside the string table
+    /// bit0: 0 = one string per distinct designation, 1 = share suffixes inside the string table;
+    /// bit1: 66 000 unused bytes follow the strings (character count beyond 16 bits);
+    /// bit2: 37 unused bytes precede the strings (no designation starts at index 0)
     pub desig_mode: u8,
     /// bit0 write the isstd vector, bit1 write the isut vector
     pub indicators: u8,
@@ -350,19 +352,26 @@ impl ZoneSpec {
     fn string_table(&self) -> Option<(Vec<u8>, Vec<u8>)> {
         let mut chars: Vec<u8> = Vec::new();
         let mut index = Vec::new();
+        if self.desig_mode & 4 != 0 {
+            // unused strings in front (never equal to a designation: they contain '_')
+            chars.extend_from_slice(b"_unused_\0__\0_front_padding_of_table_\0");
+            chars.truncate(36);
+            chars.push(0);
+        }
+        let lead = chars.len();
         for t in &self.types {
             if t.desig.contains(&0) {
                 return None;
             }
             let mut needle = t.desig.clone();
             needle.push(0);
-            let found = if self.desig_mode == 1 {
+            let found = if self.desig_mode & 1 == 1 {
                 // any position where desig+NUL occurs (suffix sharing)
                 chars.windows(needle.len()).position(|w| w == &needle[..])
             } else {
                 // only at the start of a previously placed string
                 let mut pos = None;
-                let mut start = 0;
+                let mut start = lead;
                 while start < chars.len() {
                     let end = start + chars[start..].iter().position(|&c| c == 0).unwrap();
                     if chars[start..end] == t.desig[..] {
@@ -385,6 +394,12 @@ impl ZoneSpec {
                 return None;
             }
             index.push(i as u8);
+        }
+        if self.desig_mode & 2 != 0 {
+            for k in 0..66_000u32 {
+                chars.push(if k % 9 == 8 { 0 } else { b'a' + (k % 23) as u8 });
+            }
+            chars.push(0);
         }
         Some((chars, index))
     }
